@@ -60,7 +60,9 @@ CLAIMED = {
             'beyond. Deeper paths and non-dyadic rationals are outside the claim.', '§6 C14'),
     'C16': ('validate_op is evaluated on every SPEC(U,K) state against every universe op: Ok for the next op of an actor and for re-deliveries, the '
             'ordering error exactly for a gap (VClock, Orswot), conflict exactly for a reused marker (LWWReg), always Ok for MVReg/counters; for Map the '
-            'false rejection of an in-order update (D3) is a listed known finding, any other deviation is a violation. List and MerkleReg are outside.', '§6 C16'),
+            'false rejection of an in-order update (D3) is a listed known finding, any other deviation is a violation. List: three ops of one '
+            'actor (inserts and a delete) validated at replicas that have applied none / one / two of them, plus every op of the bounded List '
+            'histories in causal order. MerkleReg is outside.', '§6 C16'),
     'C17': ('validate_merge on all pairs SPEC(U,K1), SPEC(U,K2) (correct use) and on pairs from two independent universes sharing actor ids (misuse): '
             'same verdict both ways, error iff some dot currently witnesses different members; the add_all false positive (D4) is a listed known finding. '
             'Orswot, LWWReg and Map<Orswot> (correct use accepted both ways; a dot that witnesses different keys is flagged both ways).', '§6 C17'),
